@@ -627,7 +627,7 @@ func (fr *frame) doIndexAddr(x *ssa.IndexAddr, st *state) {
 	case *types.Slice:
 		sv := fr.val(x.X)
 		fr.obligeHere("safe.index", "", st, fmt.Sprintf("(and (<= 0 %s) (< %s (s_len %s)))", iv.S, iv.S, sv.S), fr.pos(x.Pos()))
-		fr.addrs[x] = &addr{kind: aElem, ref: fmt.Sprintf("(s_arr %s)", sv.S), pos: fmt.Sprintf("(+ (s_off %s) %s)", sv.S, iv.S), typ: u.Elem()}
+		fr.addrs[x] = &addr{kind: aElem, ref: fmt.Sprintf("(s_arr %s)", sv.S), pos: fmt.Sprintf("(+ (s_off %s) %s)", sv.S, iv.S), typ: u.Elem(), sl: sv.S, idx: iv.S}
 	case *types.Pointer:
 		arr := unalias(u.Elem()).Underlying().(*types.Array)
 		fr.obligeHere("safe.index", "", st, fmt.Sprintf("(and (<= 0 %s) (< %s %d))", iv.S, iv.S, arr.Len()), fr.pos(x.Pos()))
